@@ -62,7 +62,7 @@ theorem invBase_grantR {c : Cfg} {s : State} (inv : InvBase c s) (t : Tid) (hw :
           s.tasks, s.inputs, s.nodes, s.sess, s.done, s.base⟩ := by
   constructor <;> grind [InvBase, want_dequeue, Pc.isRWait, Pc.openIdx]
 
-theorem invBase_grantW {c : Cfg} {s : State} (inv : InvBase c s) (t : Tid) (hw : s.lock.want t = some true) (hrd : s.lock.readers = [])
+theorem invBase_grantW {c : Cfg} {s : State} (inv : InvBase c s) (t : Tid) (_hw : s.lock.want t = some true) (hrd : s.lock.readers = [])
       (hwr : s.lock.writer = none) :
       InvBase c 
         ⟨s.epoch, ⟨s.lock.readers, some t, dequeue s.lock.queue t⟩,
@@ -71,7 +71,7 @@ theorem invBase_grantW {c : Cfg} {s : State} (inv : InvBase c s) (t : Tid) (hw :
   constructor <;> grind [InvBase, want_dequeue, Pc.isRWait, Pc.openIdx]
 
 
-theorem invBase_rAcq {c : Cfg} {s : State} (inv : InvBase c s) (t : Tid) (ks : List (Bool × Key)) (hpc : (s.tasks t).pc = .rWait ks)
+theorem invBase_rAcq {c : Cfg} {s : State} (inv : InvBase c s) (t : Tid) (ks : List (Bool × Key)) (_hpc : (s.tasks t).pc = .rWait ks)
       (hmem : t ∈ s.lock.readers) (hw : s.lock.want t = none) :
       InvBase c 
         ⟨s.epoch, s.lock, upd s.tasks t ⟨.rLocked ks, (s.tasks t).script⟩, s.inputs, s.nodes, s.sess,
@@ -82,7 +82,7 @@ theorem invBase_rAcq {c : Cfg} {s : State} (inv : InvBase c s) (t : Tid) (ks : L
 (to a pc that is not a waiting/opening one) -/
 theorem invBase_setPc {c : Cfg} {s : State} (inv : InvBase c s) (t : Tid) (x : Task)
     (h1 : (s.tasks t).pc.isRWait = false) (h2 : (s.tasks t).pc.openIdx = none)
-    (h3 : x.pc.isRWait = false) (h4 : x.pc.openIdx = none)
+    (_h3 : x.pc.isRWait = false) (h4 : x.pc.openIdx = none)
     (h5 : ∀ e ks, x.pc = .rActive e ks → t ∈ s.lock.readers)
     (h6 : ∀ ks, x.pc = .rLocked ks → t ∈ s.lock.readers) (inp : Inputs) (nodes : Key → Option Node) :
     InvBase c ⟨s.epoch, s.lock, upd s.tasks t x, inp, nodes, s.sess, s.done, s.base⟩ := by
@@ -97,13 +97,13 @@ theorem invBase_rRel {c : Cfg} {s : State} (inv : InvBase c s) (t : Tid) (e : Na
   have hw : s.lock.want t = none := inv.want_none t (by simp [hpc, Pc.isRWait]) (by simp [hpc, Pc.openIdx])
   have hw' : ∀ t', (Lock.mk (s.lock.readers.erase t) s.lock.writer s.lock.queue).want t' = s.lock.want t' :=
     fun _ => rfl
-  constructor <;> grind [upd_apply, InvBase, Pc.isRWait, Pc.openIdx, List.mem_erase_of_ne, List.erase_nil]
+  constructor <;> grind [upd_apply, InvBase, Pc.isRWait, Pc.openIdx]
 
 /-- a step of the session owner / the commit task: the session changes but keeps its owner -/
 theorem invBase_sess {c : Cfg} {s : State} (inv : InvBase c s) (t : Tid) (x : Task) (σ σ' : Sess)
     (hs : s.sess = some σ) (ho : σ'.owner = σ.owner)
     (h1 : (s.tasks t).pc.isRWait = false) (h2 : (s.tasks t).pc.openIdx = none)
-    (h3 : x.pc.isRWait = false) (h4 : x.pc.openIdx = none)
+    (_h3 : x.pc.isRWait = false) (h4 : x.pc.openIdx = none)
     (h5 : ∀ e ks, x.pc ≠ .rActive e ks) (h6 : ∀ ks, x.pc ≠ .rLocked ks)
     (inp : Inputs) (nodes : Key → Option Node) :
     InvBase c ⟨s.epoch, s.lock, upd s.tasks t x, inp, nodes, some σ', s.done, s.base⟩ := by
